@@ -21,7 +21,7 @@ func TestVerifC14(t *testing.T) {
 		Assumptions: []string{"race detector on", "order ids are assigned in stream order (INIT=1), which lets the hook log identify the CLOSE packets"},
 		Units: func(tier vfTier, seed uint64) int {
 			if tier == vfThorough {
-				return 480
+				return 4800
 			}
 			return 24
 		},
